@@ -18,7 +18,8 @@ EXPLANATION = (
     "re-checked here for the reader thread (read/parse errors travel through the ticket or the join payload); (R5) the "
     "MT and ST writers share MAX_BUF_SIZE chunking, deflate::encode, write_frame and BGZF_EOF."
     " (R6) the MT writer's public calls are total: no explicit panic in any of its functions — the Done state, which send() enters by itself when the writer thread has failed, is an error exit (genuine defect F9, repaired; the MT reader's identical construct is the matcher's positive control, its Done state is only entered by the caller's own finish())."
-    " (R7) one necessary condition of 'seek and finish always terminate' is structural: the MT reader's ticket queue and recycle queue are bounded by the same value n as the priming loop 0..n (or n + k), so the reader thread can never block in send() while pause()/finish() join it.")
+    " (R7) one necessary condition of 'seek and finish always terminate' is structural: the MT reader's ticket queue and recycle queue are bounded by the same value n as the priming loop 0..n (or n + k), so the reader thread can never block in send() while pause()/finish() join it."
+    " (R8) the MT reader's seek is an instance of the seek typestate rule of C02.R1: the in-block cursor is positioned only after this very seek repositioned the source and loaded the block.")
 ASSUMPTIONS = ["crossbeam channels are FIFO and Receiver::recv blocks until a value or disconnect",
                "rayon::spawn runs the closure exactly once",
                "std::thread::JoinHandle::join returns the closure's value"]
@@ -258,6 +259,21 @@ def run(ctx):
                                   "the %s of the MT reader is bounded by a value other than the number of buffers in circulation: with fewer slots "
                                   "than buffers the reader thread blocks in send() and pause()/finish(), which join it without draining the "
                                   "queue, never return (every seek, get_mut, finish and drop)" % what, fres.loc(b))
+
+    # ---------------------------------------------------------------- R8 MT reader seek: same typestate as the ST reader
+    ctx.rule("C03.R8", "A3 typestate after seeks (the C02.R1 instance for the MT reader): seek_to_virtual_position positions the in-block cursor only "
+                       "after this very seek repositioned the source and loaded the block — no shortcut that keeps the current block")
+    mts = "<noodles_bgzf::io::multithreaded_reader::MultithreadedReader<R> as noodles_bgzf::io::seek::Seek>::seek_to_virtual_position"
+    fs_ = ctx.anchor("C03.R8", mts)
+    if fs_ is not None:
+        sp = [b for b, c in R.find_calls(fs_, r"io::block::data::Data::set_position$") if C.eval_const(fs_, c["args"][1]) is None]
+        if not sp:
+            ctx.violation("C03.R8", "C03.R8/ANCHOR-MISSING/%s/set_position" % mts, "MT seek no longer positions the in-block cursor", fs_.loc())
+        else:
+            R.must_pass(ctx, "C03.R8", mts, r"MultithreadedReader::<R>::read_block$", "MT seek: cursor positioned only after read_block loaded the block",
+                        fn=fs_, exits=sp)
+            R.must_pass(ctx, "C03.R8", mts, r"std::io::Seek::seek$|as std::io::Seek>::seek$", "MT seek: cursor positioned only after the source was repositioned",
+                        fn=fs_, exits=sp, depth=2)
 
 
 def _spawned_closure(ctx, rule, parent_key):
